@@ -148,6 +148,7 @@ class Images:
         self.saved = {}
         self.switches = 0
         self.nonempty = 0
+        self.stdin_of = {}  # sys.stdin of each process (multiprocessing gives children /dev/null)
 
     def switch(self, tid):
         if tid == self.current:
@@ -161,6 +162,9 @@ class Images:
         nxt = self.saved.get(tid, EMPTY)
         if nxt[0] or nxt[1]:
             sp._apply(nxt)
+        self.stdin_of[self.current] = sys.stdin
+        if tid in self.stdin_of:
+            sys.stdin = self.stdin_of[tid]
         self.current = tid
         self.switches += 1
 
@@ -171,3 +175,7 @@ class Images:
             self.saved[child_tid] = (list(attrs), [(ci, copy.deepcopy(c)) for ci, c in conts])
         else:
             self.saved[child_tid] = EMPTY
+        # multiprocessing's bootstrap (util._close_stdin) gives every child /dev/null as sys.stdin
+        import os
+
+        self.stdin_of[child_tid] = open(os.devnull)
